@@ -1,4 +1,5 @@
 import PcfgVerif.Properties.ReaderCore
+import PcfgVerif.Generated.ReaderUses
 /-!
 # C19 — equivalent encodings of a training list train the same grammar
 
@@ -59,5 +60,17 @@ theorem C19_fold (R : RParams) (pc : Bool) (l1 l2 : List CPs) :
 theorem C19_constants : Generated.Reader.defaultCount = 1 ∧ Generated.Reader.hexDropFront = 5 ∧
     Generated.Reader.hexDropBack = 1 ∧ Generated.Reader.countTok = 0 ∧ Generated.Reader.restTok = 1 ∧
     Generated.Reader.yieldFrom = 0 := by decide
+
+/-- **what a reader notices on the way never reaches the ruleset** (regenerated from `trainer.py` / `lib_trainer` on every run): outside
+the reader itself the trainer reads from the reader object only the password stream (`read_password()`), the two totals
+`num_passwords` and `num_encoding_errors` — which `readPasswords` returns and the theorems above show to be the same for equivalent
+encodings — and, for a message printed to the screen only, the duplicate-detection state (which *does* differ between a count-prefixed
+and a repeated list).  Nothing else of the reader's state is written to `config.ini` or used to decide anything. -/
+theorem C19_only_totals_reach_the_ruleset :
+    (Generated.ReaderUses.uses.all fun u =>
+      u.2.2.1 == "read_password" || u.2.2.1 == "num_passwords" || u.2.2.1 == "num_encoding_errors" ||
+      u.2.2.2 == "print" || u.2.2.2 == "if-print-only") = true ∧
+    (Generated.ReaderUses.uses.filter fun u => u.2.2.2 == "config.set").map (·.2.2.1) = ["num_passwords", "num_encoding_errors"] := by
+  decide
 
 end Pcfg.C19
